@@ -16,9 +16,10 @@ import (
 // C04Case is a MaxSAT instance given through the API or as WCNF text.
 type C04Case struct {
 	M        *gen.MaxSat `json:"m"`
-	Front    string      `json:"front"`    // api | wcnf
-	Declared int         `json:"declared"` // WCNF: declared variable count (>= highest used)
-	Top      bool        `json:"top"`      // WCNF: header carries a top weight
+	Front    string      `json:"front"`           // api | wcnf
+	Declared int         `json:"declared"`        // WCNF: declared variable count (>= highest used)
+	Top      bool        `json:"top"`             // WCNF: header carries a top weight
+	Tail     int         `json:"tail,omitempty"`  // api: the last Tail hard constraints are handed over after all the others
 	Heavy    int         `json:"heavy,omitempty"` // WCNF: hard clauses are written with weight top+Heavy on every other line (a weight above top is not defined by the format; see c04Run)
 }
 
@@ -43,6 +44,18 @@ func c04Gen(r *gen.Rng, tier string, idx int) interface{} {
 	} else {
 		c.Front = "api"
 		c.M = gen.RandomMaxSat(r, 9, false)
+		if r.Chance(1, 8) { // the last constraints are slack ones and the only ones to mention the highest variables
+			n := c.M.MaxVar()
+			c.Tail = r.Range(1, 2)
+			for k := 0; k < c.Tail; k++ {
+				vars := []int{n + 1}
+				if r.Bool() {
+					vars = append(vars, n+2)
+				}
+				n += len(vars)
+				c.M.Hard = append(c.M.Hard, gen.SlackConstr(r, vars))
+			}
+		}
 	}
 	return c
 }
@@ -62,18 +75,25 @@ func maxsatConstr(l ref.Lin, weight int) maxsat.Constr {
 }
 
 // MaxSatConstrs translates the instance to API constraints (fresh slices).
-func MaxSatConstrs(m *gen.MaxSat) []maxsat.Constr {
+func MaxSatConstrs(m *gen.MaxSat, tail ...int) []maxsat.Constr {
 	var cs []maxsat.Constr
+	nh := len(m.Hard)
+	if len(tail) > 0 && tail[0] <= nh {
+		nh -= tail[0]
+	}
 	// interleave hard and soft constraints deterministically
 	i, j := 0, 0
-	for i < len(m.Hard) || j < len(m.Soft) {
-		if i < len(m.Hard) && (j >= len(m.Soft) || (i+j)%2 == 0) {
+	for i < nh || j < len(m.Soft) {
+		if i < nh && (j >= len(m.Soft) || (i+j)%2 == 0) {
 			cs = append(cs, maxsatConstr(m.Hard[i], 0))
 			i++
 		} else {
 			cs = append(cs, maxsatConstr(m.Soft[j], m.W[j]))
 			j++
 		}
+	}
+	for ; i < len(m.Hard); i++ { // the tail
+		cs = append(cs, maxsatConstr(m.Hard[i], 0))
 	}
 	return cs
 }
@@ -158,7 +178,7 @@ func c04Run(ci interface{}, rec *Rec) {
 		distinctModels := map[string]bool{}
 		// The same constraint values are handed over three times, and constraints with equal coefficient lists share
 		// one slice, as a caller building constraints in a loop would do: New must not modify what it is given.
-		constrs := MaxSatConstrs(m)
+		constrs := MaxSatConstrs(m, c.Tail)
 		shared := map[string][]int{}
 		for i := range constrs {
 			if constrs[i].Coeffs != nil {
@@ -224,6 +244,9 @@ func c04Run(ci interface{}, rec *Rec) {
 			distinctModels[ref.AssignString(a, n)] = true
 		}
 		rec.Max("distinct_result_models_per_instance", len(distinctModels))
+		if c.Tail > 0 {
+			rec.Count("api_instances_ending_with_slack_constraints_over_fresh_variables", 1)
+		}
 		if sat && opt > 0 && len(m.Soft) >= 2 {
 			rec.Interesting(JS(m) + "api")
 		}
